@@ -2,10 +2,10 @@
    Statements only; proofs are in parse/YearThm.v and parse/Render*.v over the hand model. *)
 From Coq Require Import ZArith List Bool.
 From V Require Import base.Cal gen.ParseTables parse.Lex parse.Prim parse.Ymd parse.Parse parse.Build
-                      parse.ParseSpec parse.YearThm parse.RenderIso parse.RenderMon parse.FracFacts
+                      parse.ParseSpec parse.YearThm parse.RenderIso parse.RenderName parse.FracFacts
                       parse.RenderUtc parse.RenderRefuted parse.RenderFrac parse.RenderCommaMon parse.RenderCommaMonth
                       parse.RenderCompact parse.Render12HM parse.Render12HMS parse.RenderOff parse.RenderCtime
-                      parse.RenderRfc parse.RenderComma12 parse.RenderCommaDefs parse.RenderOffDefs parse.Render12Defs.
+                      parse.RenderRfc parse.RenderComma12 parse.RenderCommaDefs parse.RenderOffDefs parse.Render12Defs parse.RenderMisc parse.RenderFlags parse.RenderOff4.
 Import ListNotations.
 Open Scope Z_scope.
 
@@ -172,6 +172,40 @@ Theorem C02_parse_render_rfc_named : forall (gmt : bool) d o df cy loc n0 n1 yf 
   = OutOk (expected_dt (TRfc (if gmt then OGMT else OUTC)) d df) (if ig then ZNaive else ZUTC) 0 false [].
 Proof. exact parse_render_rfc_named_lemma. Qed.
 Print Assumptions C02_parse_render_rfc_named.
+
+(* 6 templates: YYYY-MM-DD / YYYY/MM/DD alone; HH:MM / HH:MM:SS alone (date from the default);
+   YYYY-MM-DD NNhNNmNNs / YYYY/MM/DD NNhNNmNNs *)
+Theorem C02_parse_render_misc : forall t d o df cy loc n0 n1 yf ig,
+  In t misc_templates ->
+  valid_dt d = true -> valid_dt df = true ->
+  parse (opts_df0 yf ig df cy loc n0 n1) (render t d o)
+  = OutOk (expected_dt t d df) ZNaive 0 false [].
+Proof. exact parse_render_misc_lemma. Qed.
+Print Assumptions C02_parse_render_misc.
+
+(* 9 templates under their flags (given as keywords): DD/MM/YYYY with dayfirst=True; YY-MM-DD with
+   yearfirst=True and MM/DD/YY without flags, for years within -50..+49 of the parserinfo year
+   (guard_year); each alone or followed by " HH:MM" / " HH:MM:SS" *)
+Theorem C02_parse_render_flag_dates : forall f jt d o df cy loc n0 n1 ig,
+  In f flag_dforms -> In jt flag_tails ->
+  valid_dt d = true -> valid_dt df = true ->
+  guard_year (TDT f (fst jt) (snd jt) ONone) cy d = true ->
+  parse (opts_kw (fst (flags_of (TDT f (fst jt) (snd jt) ONone))) (snd (flags_of (TDT f (fst jt) (snd jt) ONone)))
+                 ig df cy loc n0 n1)
+        (render (TDT f (fst jt) (snd jt) ONone) d o)
+  = OutOk (expected_dt (TDT f (fst jt) (snd jt) ONone) d df) ZNaive 0 false [].
+Proof. exact parse_render_flag_dates_lemma. Qed.
+Print Assumptions C02_parse_render_flag_dates.
+
+(* 4 templates x sign: YYYY-MM-DD{T, space}{HH:MM, HH:MM:SS}{+HHMM, -HHMM} *)
+Theorem C02_parse_render_iso_offset4 : forall j tf d o df cy loc n0 n1 yf ig,
+  In j plain_joiners -> In tf plain_tforms ->
+  valid_dt d = true -> valid_dt df = true -> wf_off o = true -> smem utc_name loc = false ->
+  parse (opts_df0 yf ig df cy loc n0 n1) (render (TDT DIso j tf OHHMM) d o)
+  = OutOk (expected_dt (TDT DIso j tf OHHMM) d df)
+          (if ig then ZNaive else zone_of_off (off_secs o)) 0 false [].
+Proof. exact parse_render_iso_offset4_lemma. Qed.
+Print Assumptions C02_parse_render_iso_offset4.
 
 (* F-C02-padyear: inside the complement of the guard the round trip fails on the faithful model
    ("25 Sep 0099" and "Sat Sep 25 10:36:28 0099" are read as 1999) *)
